@@ -842,6 +842,32 @@ var scenarios = []scenario{
 			}
 		}
 	}, 5, false},
+	{"promote-an-existing-nonvoter-after-the-log-grew", func(c *simCluster) {
+		// node 4 joined as a plain non-voter and fell behind; the log grew; only then is it asked to be promoted:
+		// its first catch-up round must aim at the leader's last index, not at the index of the configuration
+		c.elect(1)
+		c.replicate(1)
+		_ = c.addNode(4, nil)
+		c.changeConfigWith(1, func(cfg *Config) {
+			cfg.Nodes[4] = Node{ID: 4, Addr: "M4:8888"}
+		})
+		c.replicate(1)
+		for k := 0; k < 8; k++ {
+			c.doClient(c.nodes[1], []entryType{entryUpdate, entryUpdate})
+			c.replicate(1, 2, 3) // node 4 hears nothing of these
+		}
+		c.changeConfigWith(1, func(cfg *Config) {
+			nn := cfg.Nodes[4]
+			nn.Action = Promote
+			cfg.Nodes[4] = nn
+		})
+		c.replicate(1, 2, 3)
+		c.doClient(c.nodes[1], []entryType{entryUpdate})
+		c.replicate(1, 2, 3)
+		for k := 0; k < 4; k++ {
+			c.replicate(1) // now node 4 catches up, round by round, and is promoted
+		}
+	}, 3, false},
 	{"single-voter-grows", func(c *simCluster) {
 		c.elect(1)
 		_ = c.addNode(2, nil)
